@@ -74,7 +74,7 @@ def check(ctx: Ctx) -> None:
     ctx.assumptions += ["RelativeSequence.split is pure and returns fresh pieces (C08, C16)", "signature changes lie on bar boundaries (hypothesis of the property)"]
     # bar splitting is built on RelativeSequence.split: its boundary handling decides whether the bars reproduce the music
     from .c08 import split_rules
-    split_rules(ctx, {"KEY", "CUT", "RESTRIKE", "PLACE"})
+    split_rules(ctx, {"KEY", "CUT", "RESTRIKE", "PLACE", "DEST", "PIECE", "FLOW"})
     # ... and every bar is made by Bar.__init__: capacity test, padding and the single leading signature (rules of C10)
     from .c10 import bar_rules
     bar_rules(ctx)
